@@ -35,17 +35,34 @@ def definify(rng, root, p=0.5):
                 defs.append("%%define %s %s" % (name, it[2]))
                 form = rng.random()
                 it[2] = ("$" + name) if form < 0.5 else "${%s}" % name
+            elif it[0] == "k" and it[2] == "" and rng.random() < p:
+                # a definition without a value (the empty string)
+                serial[0] += 1
+                name = "Nil%d" % serial[0]
+                defs.append("%%define %s" % name)
+                it[2] = ("$" + name) if rng.random() < 0.5 \
+                    else "${%s}" % name
             elif it[0] == "s":
                 rec(it[1])
     rec(root)
+    if rng.random() < 0.15:
+        # a value-less definition nobody refers to, now and then defined
+        # again: without a value (accepted) or with one (rejected)
+        serial[0] += 1
+        defs.append("%%define Void%d" % serial[0])
+        r = rng.random()
+        if r < 0.3:
+            defs.append("%%define Void%d" % serial[0])
+        elif r < 0.6:
+            defs.append("%%define Void%d -x" % serial[0])
     if defs and rng.random() < 0.3:
         # a re-definition: the same value (accepted) or another value
         # (rejected); its name may later be re-cased by a rewrite
         d = defs[rng.randrange(len(defs))]
-        parts = d.split(None, 2)
+        parts = (d.split(None, 2) + [""])[:3]
         same = rng.random() < 0.5
-        defs.append("%%define %s %s" % (parts[1], parts[2] if same
-                                        else parts[2] + "x"))
+        defs.append(("%%define %s %s" % (parts[1], parts[2] if same
+                                         else parts[2] + "x")).rstrip())
     root["items"][0:0] = [["raw", d] for d in defs]
     return len(defs)
 
@@ -143,6 +160,7 @@ def rewrite(rng, root, kinds=None, p_site=0.5):
         def refcase(node):
             for it in node["items"]:
                 if it[0] == "raw" and it[1].startswith("%define "):
+                    # (a definition without a value has two parts)
                     parts = it[1].split(None, 2)
                     if rng.random() < p_site:
                         parts[1] = _swapcase(rng, parts[1])
